@@ -149,3 +149,4 @@ def check(run):
     ck = c07.Checker(run, A)
     c07.check_gaussians(ck)
     c07.check_cacg(ck)
+    c07.close_terms(ck)
